@@ -461,7 +461,7 @@ Markup_mod(PyObject *self, PyObject *args)
     if (PyDict_Check(args)) {
         kwds = args;
     }
-    if (kwds && PyDict_Size(kwds)) {
+    if (kwds) {
         PyObject *kwcopy, *key, *value;
         Py_ssize_t pos = 0;
 
